@@ -261,7 +261,7 @@ end Ggrs
 
 namespace Ggrs
 
-/-- **C03, statuses are truthful with dropped players (non-sparse rollback sessions, drops detected
+/-- **C03, statuses are truthful with dropped players (rollback sessions, drops detected
 locally).** After any run of arrivals, calls, accepted `disconnect_player` calls and Disconnected
 events, whenever a call simulates a new frame `c`, then for every player: the status is
 Disconnected (with the blank input) exactly when the player is marked disconnected with a last
